@@ -40,6 +40,7 @@ type VC struct {
 	decls       []string
 	declSet     map[string]bool
 	assum       []string
+	assumTags   map[int][]string // index into assum -> property tags of a 'scoped' clause (visible only to obligations of those properties)
 	obligs      []*Oblig
 	roots       map[string]string // memory name -> root const
 	sorts       map[string]string // memory name -> sort
@@ -89,6 +90,19 @@ func (vc *VC) assume(a string) {
 	if a == "true" {
 		return
 	}
+	vc.assum = append(vc.assum, a)
+}
+
+// assumeScoped records a fact that only obligations serving one of the given properties may use (dropping an
+// assumption elsewhere is sound; it keeps the proofs of different properties from interfering).
+func (vc *VC) assumeScoped(a string, tags []string) {
+	if a == "true" {
+		return
+	}
+	if vc.assumTags == nil {
+		vc.assumTags = map[int][]string{}
+	}
+	vc.assumTags[len(vc.assum)] = tags
 	vc.assum = append(vc.assum, a)
 }
 
